@@ -1,19 +1,363 @@
 //! Statement shapes shared by the reference-differential checks, and the
 //! classifier that names a confirmed mismatch.
 
-use crate::data::Table;
-use crate::qgen::{Feats, GenQuery, G};
+use crate::canon::SortKey;
+use crate::data::{Table, Ty};
+use crate::qgen::{Feats, GenQuery, Rel, G};
 use crate::rng::Rng;
 
 pub fn mixed_query(rng: &mut Rng, db: &[Table], f: Feats) -> GenQuery {
     let mut g = G::new(rng, f);
-    match g.rng.below(10) {
-        0..=4 => g.q_simple(db, 3),
-        _ => g.q_agg(db, 2),
+    match g.rng.below(20) {
+        0..=7 => g.q_simple(db, 3),
+        8..=14 => g.q_agg(db, 2),
+        15 => q_subquery(&mut g, db),
+        16 => q_setop(&mut g, db, false),
+        17 => q_cte(&mut g, db).0,
+        18 => q_window(&mut g, db),
+        _ => g.q_simple(db, 2),
     }
 }
 
 pub fn classify(q: &GenQuery, _db: &[Table], _why: &str) -> String {
-    let _ = q;
-    "mismatch".to_string()
+    // coarse: the construct families present in the statement
+    let mut t: Vec<&str> = Vec::new();
+    for k in ["setop", "subquery", "cte", "window", "grouping-sets", "values", "FULL JOIN", "RIGHT JOIN", "LEFT JOIN", "CROSS JOIN", "distinct", "group-by", "global-agg", "having", "limit"] {
+        if q.tags.iter().any(|x| x == k) {
+            t.push(k);
+        }
+    }
+    if t.is_empty() {
+        "mismatch:select".into()
+    } else {
+        format!("mismatch:{}", t.join("+"))
+    }
+}
+
+fn tag(g: &mut G, t: &str) {
+    if !g.tags.iter().any(|x| x == t) {
+        g.tags.push(t.to_string());
+    }
+}
+
+fn pick_table<'a>(g: &mut G, db: &'a [Table]) -> &'a Table {
+    &db[g.rng.usize(db.len())]
+}
+
+/// One operand of a set operation: `SELECT <k cols> FROM t [WHERE]`, columns
+/// drawn from small domains so that duplicates and NULLs are frequent.
+fn setop_operand(g: &mut G, db: &[Table], col_tys: &[Ty], alias: &str) -> String {
+    let t = pick_table(g, db);
+    let rel = Rel::of(t, alias);
+    let mut items = Vec::new();
+    for (i, ty) in col_tys.iter().enumerate() {
+        let c = match ty {
+            Ty::Str => "s0",
+            Ty::Date => "d0",
+            Ty::Bool => "b0",
+            _ => *g.rng.pick(&["i0", "i1", "i1", "id"]),
+        };
+        let e = if matches!(ty, Ty::I64) && g.rng.chance(1, 5) { format!("({}.{} - 1)", alias, c) } else { format!("{}.{}", alias, c) };
+        items.push(format!("{} AS c{}", e, i));
+    }
+    let mut s = format!("SELECT {} FROM {} AS {}", items.join(", "), t.name, alias);
+    if g.rng.chance(1, 3) {
+        s.push_str(&format!(" WHERE {}", g.atom(&[rel], 0)));
+    }
+    s
+}
+
+pub struct SetOpParts {
+    pub left: String,
+    pub right: String,
+    pub op: &'static str,
+    pub ncols: usize,
+}
+
+pub fn q_setop_parts(g: &mut G, db: &[Table]) -> SetOpParts {
+    let ncols = 1 + g.rng.usize(3);
+    let col_tys: Vec<Ty> = (0..ncols).map(|_| *g.rng.pick(&[Ty::I64, Ty::I64, Ty::Str, Ty::Date])).collect();
+    let op = *g.rng.pick(&["UNION", "UNION ALL", "INTERSECT", "INTERSECT ALL", "EXCEPT", "EXCEPT ALL"]);
+    SetOpParts { left: setop_operand(g, db, &col_tys, "a0"), right: setop_operand(g, db, &col_tys, "b0"), op, ncols }
+}
+
+/// Set operation (optionally chained / wrapped). `allow_all=false` keeps to
+/// the forms SQLite can arbitrate.
+pub fn q_setop(g: &mut G, db: &[Table], allow_all: bool) -> GenQuery {
+    let mut q = GenQuery::default();
+    tag(g, "setop");
+    let mut p = q_setop_parts(g, db);
+    if !allow_all && p.op.ends_with("ALL") && p.op != "UNION ALL" {
+        p.op = if p.op.starts_with("INTERSECT") { "INTERSECT" } else { "EXCEPT" };
+    }
+    tag(g, p.op);
+    let core = match g.rng.below(4) {
+        0 => {
+            // inside a derived table with an outer aggregate or filter
+            tag(g, "setop-derived");
+            format!("SELECT x.c0 AS c0, COUNT(*) AS c1 FROM ({} {} {}) AS x GROUP BY x.c0", p.left, p.op, p.right)
+        }
+        _ => format!("{} {} {}", p.left, p.op, p.right),
+    };
+    let ncols = if core.starts_with("SELECT x.c0") { 2 } else { p.ncols };
+    g.decorate(core, ncols, &mut q);
+    q.tags = g.tags.clone();
+    q
+}
+
+/// WHERE/SELECT-list subqueries: [NOT] EXISTS, [NOT] IN, scalar; correlated or not.
+pub fn q_subquery(g: &mut G, db: &[Table]) -> GenQuery {
+    let mut q = GenQuery::default();
+    tag(g, "subquery");
+    let t0 = pick_table(g, db);
+    let t1 = pick_table(g, db);
+    let r0 = Rel::of(t0, "r0");
+    let r1 = Rel::of(t1, "r1");
+    let ocol = *g.rng.pick(&["i0", "i1", "j0", "id"]);
+    let icol = *g.rng.pick(&["i0", "i1", "id"]);
+    let correlated = g.rng.bool();
+    let corr = if correlated { format!("r1.{} = r0.{}", *g.rng.pick(&["i0", "i1"]), *g.rng.pick(&["i0", "i1", "id"])) } else { String::new() };
+    let extra = if g.rng.chance(1, 3) { g.atom(&[r1.clone()], 0) } else { String::new() };
+    let wh = |parts: &[&String]| -> String {
+        let v: Vec<&str> = parts.iter().filter(|s| !s.is_empty()).map(|s| s.as_str()).collect();
+        if v.is_empty() {
+            String::new()
+        } else {
+            format!(" WHERE {}", v.join(" AND "))
+        }
+    };
+    let kind = g.rng.below(7);
+    let (pred, sel_extra): (String, Option<String>) = match kind {
+        0 => {
+            tag(g, "exists");
+            (format!("EXISTS (SELECT 1 FROM {} AS r1{})", t1.name, wh(&[&corr, &extra])), None)
+        }
+        1 => {
+            tag(g, "not-exists");
+            (format!("NOT EXISTS (SELECT 1 FROM {} AS r1{})", t1.name, wh(&[&corr, &extra])), None)
+        }
+        2 => {
+            tag(g, "in-subquery");
+            (format!("r0.{} IN (SELECT r1.{} FROM {} AS r1{})", ocol, icol, t1.name, wh(&[&corr, &extra])), None)
+        }
+        3 => {
+            tag(g, "not-in-subquery");
+            (format!("r0.{} NOT IN (SELECT r1.{} FROM {} AS r1{})", ocol, icol, t1.name, wh(&[&corr, &extra])), None)
+        }
+        4 => {
+            tag(g, "scalar-subquery-where");
+            let agg = *g.rng.pick(&["MAX", "MIN", "SUM", "COUNT", "AVG"]);
+            (format!("r0.{} {} (SELECT {}(r1.{}) FROM {} AS r1{})", ocol, g.cmp_op(), agg, icol, t1.name, wh(&[&corr, &extra])), None)
+        }
+        5 => {
+            tag(g, "scalar-subquery-select");
+            let agg = *g.rng.pick(&["MAX", "MIN", "SUM", "COUNT"]);
+            (String::new(), Some(format!("(SELECT {}(r1.{}) FROM {} AS r1{})", agg, icol, t1.name, wh(&[&corr, &extra]))))
+        }
+        _ => {
+            tag(g, "in-subquery-select");
+            (String::new(), Some(format!("(r0.{} IN (SELECT r1.{} FROM {} AS r1{}))", ocol, icol, t1.name, wh(&[&extra]))))
+        }
+    };
+    if correlated {
+        tag(g, "correlated");
+    }
+    let mut items = vec!["r0.id AS c0".to_string(), format!("r0.{} AS c1", ocol)];
+    if let Some(e) = sel_extra {
+        items.push(format!("{} AS c2", e));
+    }
+    let mut core = format!("SELECT {} FROM {} AS r0", items.join(", "), t0.name);
+    let mut conds: Vec<String> = Vec::new();
+    if !pred.is_empty() {
+        conds.push(pred);
+    }
+    if g.rng.chance(1, 3) {
+        let a = g.atom(&[r0.clone()], 0);
+        if g.rng.bool() && !conds.is_empty() {
+            tag(g, "subquery-under-or");
+            let p = conds.pop().unwrap();
+            conds.push(format!("({} OR {})", p, a));
+        } else {
+            conds.push(a);
+        }
+    }
+    if !conds.is_empty() {
+        core.push_str(&format!(" WHERE {}", conds.join(" AND ")));
+    }
+    let n = items.len();
+    g.decorate(core, n, &mut q);
+    q.tags = g.tags.clone();
+    q
+}
+
+/// CTE statement and its textually inlined equivalent.
+pub fn q_cte(g: &mut G, db: &[Table]) -> (GenQuery, String) {
+    let mut q = GenQuery::default();
+    tag(g, "cte");
+    let t = pick_table(g, db);
+    let rel = Rel::of(t, "s");
+    let kind = g.rng.below(5);
+    let body1 = if g.rng.bool() {
+        format!("SELECT s.i0 AS k, s.i1 AS v, s.f0 AS f FROM {} AS s WHERE {}", t.name, g.atom(&[rel.clone()], 0))
+    } else {
+        tag(g, "cte-aggregate");
+        format!("SELECT s.i0 AS k, SUM(s.i1) AS v, SUM(s.f0) AS f FROM {} AS s GROUP BY s.i0", t.name)
+    };
+    let t2 = pick_table(g, db);
+    let rel2 = Rel::of(t2, "s");
+    let body2 = format!("SELECT s.i1 AS k, s.id AS v, s.f0 AS f FROM {} AS s WHERE {}", t2.name, g.atom(&[rel2], 0));
+    let (sql, inlined, n): (String, String, usize) = match kind {
+        0 => (
+            format!("WITH c AS ({}) SELECT x.k AS c0, x.v AS c1 FROM c AS x", body1),
+            format!("SELECT x.k AS c0, x.v AS c1 FROM ({}) AS x", body1),
+            2,
+        ),
+        1 => {
+            tag(g, "cte-twice");
+            (
+                format!("WITH c AS ({}) SELECT x.k AS c0, y.v AS c1, x.f AS c2 FROM c AS x JOIN c AS y ON x.k = y.k", body1),
+                format!("SELECT x.k AS c0, y.v AS c1, x.f AS c2 FROM ({b}) AS x JOIN ({b}) AS y ON x.k = y.k", b = body1),
+                3,
+            )
+        }
+        2 => {
+            tag(g, "cte-two");
+            (
+                format!("WITH c AS ({}), d AS ({}) SELECT x.k AS c0, y.v AS c1 FROM c AS x JOIN d AS y ON x.k = y.k", body1, body2),
+                format!("SELECT x.k AS c0, y.v AS c1 FROM ({}) AS x JOIN ({}) AS y ON x.k = y.k", body1, body2),
+                2,
+            )
+        }
+        3 => {
+            // nested WITH that reuses the outer name with another body
+            tag(g, "cte-shadow");
+            (
+                format!("WITH c AS ({}) SELECT x.k AS c0, y.k AS c1 FROM c AS x JOIN (WITH c AS ({}) SELECT k FROM c) AS y ON x.k = y.k", body1, body2),
+                format!("SELECT x.k AS c0, y.k AS c1 FROM ({}) AS x JOIN (SELECT k FROM ({}) AS c) AS y ON x.k = y.k", body1, body2),
+                2,
+            )
+        }
+        _ => {
+            tag(g, "cte-in-subquery");
+            (
+                format!("WITH c AS ({}) SELECT r0.id AS c0 FROM {} AS r0 WHERE r0.i0 IN (SELECT k FROM c) AND EXISTS (SELECT 1 FROM c AS z WHERE z.k = r0.i1)", body1, t.name),
+                format!("SELECT r0.id AS c0 FROM {} AS r0 WHERE r0.i0 IN (SELECT k FROM ({b}) AS c) AND EXISTS (SELECT 1 FROM ({b}) AS z WHERE z.k = r0.i1)", t.name, b = body1),
+                1,
+            )
+        }
+    };
+    // estimate join blow-up: joins on k can multiply; keep tables small for these
+    g.decorate(sql, n, &mut q);
+    q.tags = g.tags.clone();
+    (q, inlined)
+}
+
+/// Window functions over one table. A unique tiebreak (id) makes order-
+/// sensitive functions single-valued; peer-invariant ones are tested with ties.
+pub fn q_window(g: &mut G, db: &[Table]) -> GenQuery {
+    let mut q = GenQuery::default();
+    tag(g, "window");
+    let t = pick_table(g, db);
+    let part = match g.rng.below(4) {
+        0 => String::new(),
+        1 => "PARTITION BY r0.i0".to_string(),
+        2 => "PARTITION BY r0.b0".to_string(),
+        _ => "PARTITION BY r0.i0, r0.j0".to_string(),
+    };
+    let nulls = |g: &mut G| *g.rng.pick(&[" NULLS FIRST", " NULLS LAST"]);
+    let dir = |g: &mut G| if g.rng.bool() { " DESC" } else { "" };
+    let k1 = format!("r0.i1{}{}", dir(g), nulls(g));
+    let total = format!("{}, r0.id", k1); // unique tiebreak
+    let f = g.rng.below(14);
+    let (call, order, frame): (String, String, String) = match f {
+        0 => ("ROW_NUMBER()".into(), total.clone(), String::new()),
+        1 => ("RANK()".into(), k1.clone(), String::new()),
+        2 => ("DENSE_RANK()".into(), k1.clone(), String::new()),
+        3 => (format!("NTILE({})", 1 + g.rng.usize(4)), total.clone(), String::new()),
+        4 => (format!("LAG(r0.i1, {})", 1 + g.rng.usize(2)), total.clone(), String::new()),
+        5 => (format!("LEAD(r0.i1, {}, -99)", 1 + g.rng.usize(2)), total.clone(), String::new()),
+        6 => ("FIRST_VALUE(r0.i1)".into(), total.clone(), String::new()),
+        7 => ("LAST_VALUE(r0.i1)".into(), total.clone(), "ROWS BETWEEN UNBOUNDED PRECEDING AND UNBOUNDED FOLLOWING".into()),
+        8 => ("SUM(r0.i1)".into(), total.clone(), format!("ROWS BETWEEN {} PRECEDING AND {} FOLLOWING", g.rng.usize(3), g.rng.usize(3))),
+        9 => ("COUNT(r0.i1)".into(), total.clone(), "ROWS BETWEEN UNBOUNDED PRECEDING AND CURRENT ROW".into()),
+        10 => ("SUM(r0.i1)".into(), k1.clone(), String::new()), // default RANGE frame with peers
+        11 => ("MIN(r0.i1)".into(), total.clone(), format!("ROWS BETWEEN {} PRECEDING AND CURRENT ROW", 1 + g.rng.usize(3))),
+        12 => ("AVG(r0.f0)".into(), String::new(), String::new()), // whole partition
+        _ => ("MAX(r0.i1)".into(), k1.clone(), "RANGE BETWEEN UNBOUNDED PRECEDING AND CURRENT ROW".into()),
+    };
+    tag(g, call.split('(').next().unwrap_or("win"));
+    let over = format!(
+        "OVER ({}{}{}{})",
+        part,
+        if !part.is_empty() && !order.is_empty() { " " } else { "" },
+        if order.is_empty() { String::new() } else { format!("ORDER BY {}", order) },
+        if frame.is_empty() { String::new() } else { format!(" {}", frame) }
+    );
+    let mut core = format!("SELECT r0.id AS c0, r0.i0 AS c1, r0.i1 AS c2, {} {} AS c3 FROM {} AS r0", call, over, t.name);
+    if g.rng.chance(1, 4) {
+        let a = g.atom(&[Rel::of(t, "r0")], 0);
+        core.push_str(&format!(" WHERE {}", a));
+    }
+    q.ncols = 4;
+    q.full_sql = core.clone();
+    q.sql = core;
+    q.tags = g.tags.clone();
+    q
+}
+
+/// GROUPING SETS / ROLLUP / CUBE with GROUPING(); also returns the grouping
+/// sets (as column-name lists) for the per-set model.
+pub fn q_grouping(g: &mut G, db: &[Table]) -> (GenQuery, Vec<Vec<&'static str>>, &'static str, Vec<&'static str>) {
+    let mut q = GenQuery::default();
+    tag(g, "grouping-sets");
+    let t = pick_table(g, db);
+    let all: Vec<&'static str> = vec!["i0", "j0", "b0"];
+    let ncols = 1 + g.rng.usize(3);
+    let cols: Vec<&'static str> = all[..ncols].to_vec();
+    let kind = g.rng.below(3);
+    let (clause, sets): (String, Vec<Vec<&'static str>>) = match kind {
+        0 => {
+            tag(g, "rollup");
+            let mut sets = Vec::new();
+            for k in (0..=ncols).rev() {
+                sets.push(cols[..k].to_vec());
+            }
+            (format!("ROLLUP ({})", cols.iter().map(|c| format!("r0.{}", c)).collect::<Vec<_>>().join(", ")), sets)
+        }
+        1 => {
+            tag(g, "cube");
+            let mut sets = Vec::new();
+            for mask in (0..(1u32 << ncols)).rev() {
+                sets.push((0..ncols).filter(|i| mask & (1 << i) != 0).map(|i| cols[i]).collect());
+            }
+            (format!("CUBE ({})", cols.iter().map(|c| format!("r0.{}", c)).collect::<Vec<_>>().join(", ")), sets)
+        }
+        _ => {
+            tag(g, "explicit-sets");
+            let nsets = 1 + g.rng.usize(4);
+            let mut sets: Vec<Vec<&'static str>> = Vec::new();
+            for _ in 0..nsets {
+                let mask = g.rng.below(1 << ncols) as u32;
+                sets.push((0..ncols).filter(|i| mask & (1 << i) != 0).map(|i| cols[i]).collect());
+            }
+            let txt = sets.iter().map(|s| format!("({})", s.iter().map(|c| format!("r0.{}", c)).collect::<Vec<_>>().join(", "))).collect::<Vec<_>>().join(", ");
+            (format!("GROUPING SETS ({})", txt), sets)
+        }
+    };
+    let mut items: Vec<String> = cols.iter().enumerate().map(|(i, c)| format!("r0.{} AS c{}", c, i)).collect();
+    items.push(format!("COUNT(*) AS c{}", ncols));
+    items.push(format!("SUM(r0.i1) AS c{}", ncols + 1));
+    items.push(format!("GROUPING({}) AS c{}", cols.iter().map(|c| format!("r0.{}", c)).collect::<Vec<_>>().join(", "), ncols + 2));
+    let core = format!("SELECT {} FROM {} AS r0 GROUP BY {}", items.join(", "), t.name, clause);
+    q.ncols = ncols + 3;
+    q.full_sql = core.clone();
+    q.sql = core;
+    q.tags = g.tags.clone();
+    let tname: &'static str = Box::leak(t.name.clone().into_boxed_str());
+    (q, sets, tname, cols)
+}
+
+#[allow(dead_code)]
+pub fn keys_none() -> Vec<SortKey> {
+    Vec::new()
 }
